@@ -147,10 +147,15 @@ def h_rel(shape, implicit_tz=None, time_as_period=False):
     return fn
 
 
+_ABBR_H = {"PKT": 5, "JST": 9, "PST": -8, "AEST": 10}     # fixed-offset abbreviations of the library's table (any letter case)
+
+
 def _off_us(tz):
     import re
     if tz in ("UTC", "local"):
         return 0
+    if tz.upper() in _ABBR_H:
+        return _ABBR_H[tz.upper()] * 3600 * 1000000
     m = re.fullmatch(r"([+-])(\d\d)(\d\d)", tz)
     return (1 if m.group(1) == "+" else -1) * (int(m.group(2)) * 3600 + int(m.group(3)) * 60) * 1000000
 
@@ -208,7 +213,8 @@ def tasks(tier, seed):
     for z in [z for z in (["Europe/Paris"] if quick else ["Europe/Paris", "America/New_York", "Australia/Lord_Howe"])
               if zones.usable(z, 2020, 2022)]:
         add("implicit-now:%s:in hours" % z, _single("hour", "in", 2), implicit_tz=z)
-    for tz in (["+0530", "local"] if quick else ["UTC", "local", "+0530", "-0800", "+1245", "-0330"]):
+    for tz in (["+0530", "local", ["pkt", "Jst", "aest"][seed % 3]] if quick else
+               ["UTC", "local", "+0530", "-0800", "+1245", "-0330", "pkt", "Jst", "PST", "aest", "PKT"]):
         add("implicit-now:%s:days ago" % tz, _single("day", "ago", 2), implicit_tz="UTC" if tz == "UTC" else tz)
         if not quick:
             add("implicit-now:%s:in hours" % tz, _single("hour", "in", 2), implicit_tz="UTC" if tz == "UTC" else tz)
